@@ -9,24 +9,6 @@ import (
 	"github.com/gobwas/ws/wsutil"
 )
 
-func vHdr() ws.Header {
-	var h ws.Header
-	h.Fin = vBool("fin")
-	h.Rsv = vU8("rsv")
-	h.OpCode = ws.OpCode(vU8("op"))
-	h.Masked = vBool("masked")
-	h.Mask = [4]byte{vU8("m0"), vU8("m1"), vU8("m2"), vU8("m3")}
-	h.Length = int64(vU64("len"))
-	vAssume(h.Rsv <= 7)
-	vAssume(h.OpCode <= 15)
-	vAssume(h.Length >= 0)
-	return h
-}
-
-func vSameExceptRsv(a, b ws.Header) bool {
-	return vAnd(a.Fin == b.Fin, vAnd(a.OpCode == b.OpCode, vAnd(a.Masked == b.Masked, vAnd(a.Mask == b.Mask, a.Length == b.Length))))
-}
-
 // C13_bits_exact: SetBits/UnsetBits touch RSV1 only, only on the first frame of a data message.
 func C13_bits_exact() {
 	h := vHdr()
@@ -71,84 +53,6 @@ func C13_bits_exact() {
 	vAssert(vAnd(err2 == nil, vAnd(was == vAnd(firstData, r1), g2.Rsv == g.Rsv)), "unsetbit.agrees")
 	ic, err3 := IsCompressed(h)
 	vAssert(vAnd(err3 == nil, ic == was), "iscompressed.agrees")
-}
-
-type vRecW struct {
-	all []byte
-}
-
-func (r *vRecW) Write(p []byte) (int, error) { r.all = append(r.all, p...); return len(p), nil }
-
-type vBytesSrc struct {
-	data    []byte
-	pos     int
-	one     bool
-	eofWith bool // deliver the last chunk together with io.EOF (allowed by io.Reader)
-}
-
-func (s *vBytesSrc) Read(p []byte) (int, error) {
-	if s.pos >= len(s.data) {
-		return 0, io.EOF
-	}
-	if len(p) == 0 {
-		return 0, nil
-	}
-	n := len(s.data) - s.pos
-	if n > len(p) {
-		n = len(p)
-	}
-	if s.one {
-		n = 1
-	}
-	copy(p, s.data[s.pos:s.pos+n])
-	s.pos += n
-	if s.eofWith && s.pos >= len(s.data) {
-		return n, io.EOF
-	}
-	return n, nil
-}
-
-// vFrames parses concrete-length frames (harness-side RFC 6455 decoder).
-type vFr struct {
-	fin     bool
-	rsv, op byte
-	masked  bool
-	payload []byte
-}
-
-func vParse(b []byte) (fs []vFr, ok bool) {
-	for len(b) > 0 {
-		if len(b) < 2 {
-			return fs, false
-		}
-		f := vFr{fin: b[0]&0x80 != 0, rsv: (b[0] >> 4) & 7, op: b[0] & 15, masked: b[1]&0x80 != 0}
-		n := int(vConcrete(uint64(b[1] & 0x7f)))
-		off := 2
-		if n > 125 {
-			return fs, false
-		}
-		var key [4]byte
-		if f.masked {
-			if len(b) < 6 {
-				return fs, false
-			}
-			copy(key[:], b[2:6])
-			off = 6
-		}
-		if len(b) < off+n {
-			return fs, false
-		}
-		f.payload = make([]byte, n)
-		for i := range f.payload {
-			f.payload[i] = b[off+i]
-			if f.masked {
-				f.payload[i] ^= key[i%4]
-			}
-		}
-		fs = append(fs, f)
-		b = b[off+n:]
-	}
-	return fs, true
 }
 
 // C13_writer_reader: through the fragmenting writer RSV1 is on the first frame of a
